@@ -213,6 +213,7 @@ Fixpoint sem_stmt (e : env) (s : stmt) {struct s} : env * list rd :=
       let '(e3, r3) := block finalbody e2 in
       (e3, r1 ++ r2 ++ r3)
   | SPass _ => (e, [])
+  | SDoc _ _ _ => (e, [])
   end.
 
 Fixpoint sem_block (l : list stmt) (e : env) : env * list rd :=
@@ -229,3 +230,11 @@ Definition module_frame (bi : list name) (ns : list (list name)) (p : program) :
   mkFrame FModule [] (rev (bsrcs_block false p) ++ init) init.
 Definition pysem (bi : list name) (ns : list (list name)) (p : program) : list rd :=
   snd (sem_block p [module_frame bi ns p]).
+
+(* the doctest examples run after the module (as the doctest module runs them): the examples of one docstring
+   one after the other in a copy of the final module namespace *)
+Definition final_frame (bi : list name) (ns : list (list name)) (p : program) : frame :=
+  head (fst (sem_block p [module_frame bi ns p])).
+Definition sem_docstring (M : frame) (d : docstring) : list rd := snd (sem_block (fst d) [M]).
+Definition pysem_doc (bi : list name) (ns : list (list name)) (p : program) : list rd :=
+  pysem bi ns p ++ flat_map (sem_docstring (final_frame bi ns p)) (docstrings_of p).
